@@ -171,6 +171,31 @@ CLAIMED = {
         "(null vs error) but are not JSON-representable: counted in evidence, outside the quantifier.",
    design="DESIGN.md §7 C17",
    technique="Lean 4 theorems (regenerated cfg whitelist; specialised = generic conversion) + cross-build correspondence streams"),
+ "C14": dict(
+   text="Machine-checked theorems (Lean 4) over a model of the library's Serializer and Deserializer-for-Variable against serde's data model and its "
+        "standard / derive visitors: for every data-model value with string-keyed maps (all serializer entry points, nested arbitrarily) the "
+        "conversion for searching equals the JSON value serde_json produces; decoding equals serde_json's decoding (the machine-checked "
+        "counterexample of the repaired defect F15 — trailing elements silently dropped — and the proof that the length check was the only "
+        "difference are kept); a well-typed Rust value survives serialise -> convert -> decode (5-way mutual induction; the exact side "
+        "conditions, e.g. Some(()) and NaN, are characterised with counterexamples). The `serde` stream drives the real code: a dynamic "
+        "Serialize impl hits every entry point through Variable::from_serializable and serde_json::to_value; 33 derive(Deserialize) types "
+        "are decoded from the same data by T::deserialize(variable) and serde_json::from_value; results must agree with each other and the model.",
+   note="Trusted: Lean kernel; serde / serde_derive / serde_json are external — svToJson and deJson are the specification, modelled (deJson is "
+        "identified with the kind-directed core + length check) and validated by running the real serde_json next to the library on every case. "
+        "Non-string map keys are outside the property (the library rejects, serde_json stringifies).",
+   design="DESIGN.md §7 C14",
+   technique="Lean 4 theorems over a model of the serde bridge + differential correspondence stream against serde_json"),
+ "C16": dict(
+   text="Machine-checked theorems (Lean 4) over an interleaving model (atomic steps over shared immutable expressions/documents and the once-cell of "
+        "the default runtime): a step's result does not depend on the state it is taken in, the first-use race has a single outcome, and "
+        "under every schedule each thread obtains exactly the results its program yields when run alone (induction over schedules). The "
+        "Send + Sync obligations for Expression, Runtime, Variable, Rcvar and JmespathError are compiled into the harness and re-checked by "
+        "rustc with --features sync on every run; the `threads` stream releases 2/8/16 real threads at a barrier in a fresh process per case "
+        "(so the first compile races on the lazy default runtime) and compares per-thread results with a sequential run and the model.",
+   note="PARTIAL BY NATURE: atomicity and data-race freedom are provided by Rust's type system, Arc and lazy_static, which the model assumes; the "
+        "stream observes a sample of real schedules and cannot enumerate them.",
+   design="DESIGN.md §7 C16",
+   technique="Lean 4 schedule-independence theorem over an interleaving model + rustc-checked Send/Sync obligations + real-thread stream"),
 }
 
 NOT_YET = "check not built yet in this session (work in progress; see DESIGN.md §10 for the order of work)"
